@@ -211,7 +211,53 @@ def proof_stage(prop):
         res["discharged"] = 0
     else:
         res["ok"] = True
+    if res["ok"] and TIER == "thorough":
+        okc, n, detail = leancheck(mods)
+        res["leanchecker"] = {"modules_rechecked": n, "ok": okc}
+        if not okc:
+            res["ok"] = False
+            res["discharged"] = 0
+            res["detail"] = "leanchecker rejected a compiled module: " + detail
     return res
+
+
+TIER = "quick"   # set by ./check
+
+
+def lean_closure(mods):
+    """the modules of this project that `mods` import, transitively (the proofs live in Lemmas/*)"""
+    seen, todo = [], list(mods)
+    while todo:
+        m = todo.pop()
+        if m in seen or not m.startswith("TgModel"):
+            continue
+        path = os.path.join(LEAN, *m.split(".")) + ".lean"
+        if not os.path.exists(path):
+            continue
+        seen.append(m)
+        with open(path) as f:
+            for line in f:
+                mm = re.match(r"\s*(?:public\s+)?import\s+(TgModel[\w.]*)", line)
+                if mm:
+                    todo.append(mm.group(1))
+    return sorted(seen)
+
+
+def leancheck(mods):
+    """thorough tier: Lean's independent re-checker over the compiled property modules and every
+    project module they import"""
+    import concurrent.futures
+    allm = lean_closure(mods)
+    chunks = [allm[i::8] for i in range(8) if allm[i::8]]
+
+    def one(ch):
+        rc, out = sh(["lake", "env", "leanchecker"] + ch, cwd=LEAN, timeout=3000)
+        return rc, out
+    with flock("lake"):
+        with concurrent.futures.ThreadPoolExecutor(8) as ex:
+            results = list(ex.map(one, chunks))
+    bad = [out[-400:] for rc, out in results if rc != 0 or "exception" in out.lower() or "error" in out.lower()]
+    return (not bad), len(allm), " | ".join(bad)[:1200]
 
 
 # --------------------------------------------------------------------------- line protocol
